@@ -128,7 +128,7 @@ def register(reg):
     ROWPRE = ("forall(range(0, len(reactions)), lambda j: self.reaction_col in {R} and is_str({R}[self.reaction_col])"
               " and split_len(as_str({R}[self.reaction_col]), '>>') >= 2 and self.solved_col in {R} and 'input_reaction' in {R}"
               " and implies(not self.check_carbon_balance, self.carbon_balance_col in {R})"
-              " and implies(override_unsolved and not is_none(override_issue_msg), self.issue_col in {R}))").format(R=R)
+              " and implies(override_unsolved and not is_none(override_issue_msg) and not truthy({R}[self.solved_col]), self.issue_col in {R}))").format(R=R)
     KEYS = ["self.reaction_col", "self.solved_col", "self.solved_method_col", "self.unbalance_col",
             "self.carbon_balance_col", "self.issue_col", "'reactants'", "'products'"]
     SPLITS = ("forall(range(0, len(reactions)), lambda j: 'reactants' in {R} and 'products' in {R}"
@@ -436,3 +436,50 @@ def register(reg):
         },
         shards=8,
         props=["C03", "C06", "C10", "C11", "C01", "C04"])
+
+    # ------------------------------------------------------------------------------------------------
+    # assumed stage contracts: preprocess, RuleBasedMethod.run (pandas / joblib heavy; checked at run time)
+    PRE_KEYS = ["reaction_col", "index_col", "solved_col", "input_col", "'reactants'", "'products'"]
+    reg.contract(
+        "synrbl/preprocess.py", "preprocess",
+        params={"reactions": ROWS, "reaction_col": STR, "index_col": STR, "solved_col": STR, "input_col": STR,
+                "remove_aam": BOOL},
+        returns=ROWS, fresh_result=True, assumed=True,
+        ensures=[
+            "len(result) <= len(reactions)",
+            "distinct_rows(result) and forall(range(0, len(result)), lambda j: fresh(result[j]))",
+            "forall(range(0, len(result)), lambda j: reaction_col in result[j] and is_str(result[j][reaction_col]) and split_len(as_str(result[j][reaction_col]), '>>') == 2 "
+            "and index_col in result[j] and result[j][index_col] == str(j) and solved_col in result[j] and result[j][solved_col] == False "
+            "and input_col in result[j] and result[j][input_col] == result[j][reaction_col] and 'reactants' in result[j] and 'products' in result[j])",
+            "forall(range(0, len(result)), lambda j: forall(STR, lambda k: implies(k in result[j] and " + " and ".join("k != %s" % k for k in PRE_KEYS)
+            + ", exists(range(0, len(reactions)), lambda i: k in reactions[i]))))",
+        ],
+        modifies=["each(reactions)"],
+        note="pandas round trip: one fresh row per parsable input row in order, id = row position, solved = False, input_reaction = reaction "
+             "(that no row is dropped is C05's claim and is NOT assumed here)",
+        props=["C01", "C03", "C04", "C05", "C06", "C18"])
+
+    reg.classdecl("RuleBasedMethod", {"id_col": STR, "reaction_col": STR, "output_col": STR, "n_jobs": VAL, "rules": VAL})
+    R = "reactions[j]"
+    RCMP = "CMPD(DEC(split_at(as_str(old({R}[self.reaction_col])), '>>', 0)), DEC(split_at(as_str(old({R}[self.reaction_col])), '>>', 1)))".format(R=R)
+    reg.contract(
+        "synrbl/rule_based.py", "RuleBasedMethod.run",
+        params={"self": Obj("RuleBasedMethod"), "reactions": ROWS, "stats": Ty("opt", COMP)}, returns=ROWS, assumed=True,
+        requires=["distinct_rows(reactions)", "self.output_col == self.reaction_col",
+                  "self.reaction_col != 'reactants' and self.reaction_col != 'products' and self.reaction_col != 'carbon_balance_check'",
+                  "forall(range(0, len(reactions)), lambda j: self.reaction_col in {R} and is_str({R}[self.reaction_col]) and "
+                  "split_len(as_str({R}[self.reaction_col]), '>>') == 2 and 'carbon_balance_check' in {R} and self.id_col in {R} and {R}[self.id_col] == str(j))".format(R=R)],
+        ensures=[
+            "result is reactions and len(reactions) == old(len(reactions))",
+            "forall(range(0, len(reactions)), lambda j: reactions[j] is old(reactions[j]))",
+            only_keys("reactions", ["self.reaction_col", "'reactants'", "'products'"]),
+            # rows that compare as balanced keep their reaction [C01, C04]
+            "forall(range(0, len(reactions)), lambda j: implies({C} == 'Balance', {R}[self.reaction_col] == old({R}[self.reaction_col])))".format(C=RCMP, R=R),
+            "forall(range(0, len(reactions)), lambda j: is_str({R}[self.reaction_col]) and split_len(as_str({R}[self.reaction_col]), '>>') == 2 "
+            "and 'reactants' in {R} and 'products' in {R})".format(R=R),
+            "implies(not is_none(stats), 'balanced_cnt' in stats and 'rb_applied' in stats and 'rb_solved' in stats and "
+            "0 <= stats['rb_solved'] and stats['rb_solved'] <= stats['rb_applied'] and 0 <= stats['balanced_cnt'])",
+        ],
+        modifies=["each(reactions)", "stats"],
+        note="the stage never rewrites a reaction whose two sides compare as balanced",
+        props=["C01", "C03", "C04", "C18", "C02"])
